@@ -17,17 +17,24 @@ def build(table="module"):
     S.load_module(ps)
     import spec.refcount_spec as rs
     S.load_module(rs)
+    import spec.protocol_spec as prs
+    S.load_module(prs)
     import rpyc.core.channel as ch
     S.consts["C"] = tables.frame_consts_from_module(ch)
     import rpyc.core.stream as stream_mod
     S.consts["ClosedFile"] = stream_mod.ClosedFile
     import errno
-    S.consts["errno"] = errno
+    S.consts["errno"] = errno_mod if "errno_mod" in dir() else __import__("errno")
+    import rpyc.core.protocol as protocol_mod, rpyc.core.consts as consts_mod
+    S.consts["HANDLERS"] = protocol_mod.Connection._request_handlers()
+    for _k, _v in vars(consts_mod).items():
+        if _k.isupper():
+            S.consts[_k] = _v
     T = tables.from_module(brine) if table == "module" else tables.from_reference()
     S.consts["T"] = T
     S.consts["PERM_INVARIANT"] = bs.PERM_INVARIANT
     st = store.Store()
-    for m in ("brine", "compat", "externals", "stream", "channel", "protocol_attr", "colls"):
+    for m in ("brine", "compat", "externals", "stream", "channel", "protocol_attr", "colls", "protocol_box", "protocol_core", "async_"):
         importlib.import_module("contracts." + m).register(st)
     lib = libmodels.Lib(S)
     ex = engine.Executor(st, REPO, S, lib)
@@ -43,7 +50,7 @@ if __name__ == "__main__":
     for target, c in ex.store.contracts.items():
         if names and not any(n == c.qualname or n == target for n in names):
             continue
-        if c.inline:
+        if c.inline or c.trusted:
             continue
         for b in c.behaviours:
             try:
